@@ -34,6 +34,7 @@ fn main() {
         "C15" => props::c15::run(tier),
         "C16" => props::c16::run(tier),
         "C17" => props::c17::run(tier),
+        "C18" => props::c18::run(tier),
         "C19" => props::c19::run(tier),
         "C20" => props::c20::run(tier),
         other => {
